@@ -762,7 +762,8 @@ class LeastSquare:
         QG = GGinv - np.dot(GGinv, np.dot(GT, LG))
         QF = np.dot(GGinv, np.dot(GT, LLinv))
         T = np.dot(QG, GF) + np.dot(QF, F)
-        E = (FF - 2 * np.dot(T.T, GF) + np.dot(T.T, np.dot(GG, T))) / 2
+        TGF = np.dot(T.T, GF)
+        E = (FF - TGF - TGF.T + np.dot(T.T, np.dot(GG, T))) / 2
         return totuple(T), totuple(E)
 
 
